@@ -107,6 +107,7 @@ def payload(mod, in_project):
         for k, e in enumerate(mod.effect_control_envelopes, 1):
             envs[f"effect{k}"] = envelope(e)
         return {
+            "slot_count": len(mod.samples),      # rv-only: the public `samples` list keeps its 128 positions
             "samples": samples, "envelopes": envs,
             "note_samples": [int(v) for v in mod.note_samples.values()],
             "vibrato_type": _i(mod.vibrato_type), "vibrato_attack": mod.vibrato_attack,
@@ -218,7 +219,7 @@ def snapshot(obj):
 
 
 # ------------------------------------------------------------------------- diff
-IGNORED_KEYS = {"_present", "cvals_raw", "options_raw", "meta_size", "record_size", "signature",
+IGNORED_KEYS = {"slot_count_decoder_side", "_present", "cvals_raw", "options_raw", "meta_size", "record_size", "signature",
                 "max_version", "version"}
 
 
